@@ -45,6 +45,19 @@ Lemma ex_chunked_false_ok :
     (ROk [], [([80; 79; 83; 84], [47; 112], [120; 121; 122], [], true, None)]).
 Proof. vm_compute. repeat split; try reflexivity; discriminate. Qed.
 
+(* the async generator of ex_chunked raises after its second piece ("x", ""): head + one chunk, no terminator;
+   the parser has the message with r_eof = false and is still inside the body *)
+Definition wire_aborted (r : creq) (k : nat) : bytes := match client_serialize_aborted r k with Some w => w | None => [] end.
+Lemma ex_aborted :
+  let r := built ex_chunked in
+  writer_chunking_enabled (c_chunked r) = true /\ client_serialize r <> None /\ valid lim0 r = true /\
+  client_serialize_aborted r 2 <> None /\
+  digest (run_segs lim0 [] init [wire_aborted r 2] [] []) =
+    (ROk [], [([80; 79; 83; 84], [47; 112], [120], [1], false, None)]) /\
+  digest (run_segs lim0 [] init [wire_of r] [] []) =
+    (ROk [], [([80; 79; 83; 84], [47; 112], [120; 121; 122], [1; 3], true, None)]).
+Proof. vm_compute. repeat split; try reflexivity; discriminate. Qed.
+
 Lemma ex_keepalive :
   (let r := built ex_chunked in valid lim0 r = true /\ md_has n_connection (i_headers ex_chunked) = false /\ close_of r = false) /\
   (let r := built ex_bytes in valid lim0 r = true /\ md_has n_connection (i_headers ex_bytes) = false /\ close_of r = true).
